@@ -369,7 +369,7 @@ def shape_of(uid):
 
 def run(run):
     quick = run.tier == "quick"
-    n = 16 if quick else 200
+    n = 16 if quick else 96
     tasks = [{"name": f"p{i}", "seed": run.rng("p", i).getrandbits(44), "steps": 6 if quick else 14, "cmds_per_user": 5 if quick else 8} for i in range(n)]
     run.min_distinct = 40
     run.assumptions = ["permission model of user_management.md; an entry with both flags revoked under a reading / writing role is unspecified (the docs say "
